@@ -624,8 +624,22 @@ class Graph:
         strict / is_consistent verdicts."""
         ctx = self.ctx
         memo, mmemo, rawmemo = {}, {}, {}
-        for n in self.nodes:
-            S = n.spec
+        targets = [(n.name, n.spec) for n in self.nodes]
+        if not STRICT:
+            # the specifications the library synthesizes around the graph are specifications with resolution orders too:
+            # what a class itself provides (ClassProvides) and what the rest of an MRO implements (super proxies)
+            from zope.interface.declarations import ClassProvides
+            for n in self.nodes:
+                if n.kind == 'impl' and n.cls is not None:
+                    cp = providedBy(n.cls)
+                    if isinstance(cp, ClassProvides):
+                        targets.append(('provides-of-class-' + n.name, cp))
+                        ctx.count('synthesized_specifications_checked[ClassProvides]')
+                elif n.kind == 'prov' and n.obj is not None:
+                    for C in type(n.obj).__mro__[:-1]:
+                        targets.append(('super(%s)-of-%s' % (C.__name__, n.name), providedBy(super(C, n.obj))))
+                        ctx.count('synthesized_specifications_checked[super]')
+        for name_, S in targets:
             if self.conflated(S, util.reach(S, util.spec_bases)[1]):
                 # an ancestry holding two equal-keyed interfaces: the library treats them as one (DESIGN 7.2)
                 ctx.count('nodes_skipped_conflated_twins')
@@ -653,11 +667,11 @@ class Graph:
                             if pos[id(b)] < pos[id(x)]:
                                 bad = '%s placed after its base %s' % (self.name_of(x), self.name_of(b))
             if bad:
-                ctx.violation('invalid-linearization', {'spec': n.name, 'why': bad, 'sro': [self.name_of(x) for x in sro]})
+                ctx.violation('invalid-linearization', {'spec': name_, 'why': bad, 'sro': [self.name_of(x) for x in sro]})
             iro = list(S.__iro__)
             filt = [x for x in sro if isinstance(x, InterfaceClass)]
             if len(iro) != len(filt) or not all(a is b for a, b in zip(iro, filt)):
-                ctx.violation('iro-not-filtered-sro', {'spec': n.name})
+                ctx.violation('iro-not-filtered-sro', {'spec': name_})
             # (b) C3 equality; two independent oracles must agree first
             exp = util.c3(S, eff_bases, memo)
             exp2 = util.mirror_mro(S, eff_bases, Interface, mmemo)
@@ -673,13 +687,13 @@ class Graph:
                 if not LEGACY:
                     ctx.ev()
                     if [id(x) for x in sro] != [id(x) for x in exp]:
-                        ctx.violation('sro-not-c3', {'spec': n.name, 'sro': [self.name_of(x) for x in sro],
+                        ctx.violation('sro-not-c3', {'spec': name_, 'sro': [self.name_of(x) for x in sro],
                                                      'c3': [self.name_of(x) for x in exp]})
                     pre = [S] + [x for x in util.reach(S, eff_bases)[1]]
                     if multi and [id(x) for x in exp] != [id(x) for x in dfs_pre(S)]:
                         ctx.count('c3_differs_from_dfs')
             if STRICT and exp is None:
-                ctx.violation('strict-graph-has-inconsistent-node', {'spec': n.name})
+                ctx.violation('strict-graph-has-inconsistent-node', {'spec': name_})
             # (c) explicit ro.ro / is_consistent on the raw graph
             raw = util.c3(S, util.spec_bases, rawmemo)
             ctx.ev()
@@ -692,14 +706,14 @@ class Graph:
                 except IRO:
                     raised = True
                 if raised != (raw is None):
-                    ctx.violation('strict-ro-verdict', {'spec': n.name, 'raised': raised, 'c3_exists': raw is not None})
+                    ctx.violation('strict-ro-verdict', {'spec': name_, 'raised': raised, 'c3_exists': raw is not None})
                 if not raised and not LEGACY and [id(x) for x in got] != [id(x) for x in raw]:
-                    ctx.violation('strict-ro-not-c3', {'spec': n.name, 'ro': [self.name_of(x) for x in got]})
+                    ctx.violation('strict-ro-not-c3', {'spec': name_, 'ro': [self.name_of(x) for x in got]})
                 ctx.ev()
                 cons = bool(ro.is_consistent(S))
                 if cons != (raw is not None):
                     direct = raw is None and all(util.c3(b, util.spec_bases, rawmemo) is not None for b in S.__bases__)
-                    ctx.violation('is_consistent-verdict', {'spec': n.name, 'is_consistent': cons,
+                    ctx.violation('is_consistent-verdict', {'spec': name_, 'is_consistent': cons,
                                                             'c3_exists': raw is not None,
                                                             'bases': [self.name_of(b) for b in S.__bases__]},
                                   mechanism='is_consistent_skips_own_merge' if (cons and direct) else None)
@@ -708,7 +722,7 @@ class Graph:
                     loose = ro.ro(S, strict=False, use_legacy_ro=False)
                 ctx.ev()
                 if raw is not None and [id(x) for x in loose] != [id(x) for x in raw]:
-                    ctx.violation('ro-not-c3', {'spec': n.name, 'ro': [self.name_of(x) for x in loose]})
+                    ctx.violation('ro-not-c3', {'spec': name_, 'ro': [self.name_of(x) for x in loose]})
                 if raw is None:
                     ctx.count('legacy_fallback_orders')
 
